@@ -831,4 +831,45 @@ def run(chk):
     T_STAR, T_LONG = "this.arg_list.front().front() == '*'", "this.arg_list.front().size() > 1"
     leaf_table("argListIsWellList", [T_STAR, T_LONG], lambda v: v[T_STAR] and v[T_LONG], boolean=True, why="'*' alone is the all-wells pattern, '*X' names a well list")
 
+    # entry points around the tree: Parser::parse and the name lookup of Actions
+    px18 = chk.facts([A + "ActionParser.cpp", A + "Actions.cpp"])
+
+    def other_fn(file_, cls_, nm, npar=None, ptype=None):
+        c = [f for f in px18.fns if f["n"] == nm and f.get("body") and f["file"].endswith(file_) and (f.get("cls") or "").endswith(cls_)
+             and (npar is None or len(f["params"]) == npar) and (ptype is None or ptype in (f["params"][0].get("t") or ""))]
+        if len(c) != 1:
+            raise core.AnalysisBroken("%s: %d definitions of %s::%s" % (file_, len(c), cls_, nm))
+        return c[0]
+
+    def plain_table(f, atoms, want, why, boolean=False, opaque=()):
+        key = "%s::%s" % (f.get("cls", "").split("::")[-1], f["n"])
+        try:
+            got = dtable.table(f, boolean=boolean, opaque=opaque)
+        except dtable.NotATable as e_:
+            chk.instance(r_lf, key, sample=dict(not_a_table=str(e_)))
+            chk.violation(r_lf, key, "%s is no longer a dispatch over its conditions (%s): %s" % (f["q"], e_, why), f["file"], f["l"])
+            return
+        diffs = dtable.same_table(got, atoms, want)
+        chk.instance(r_lf, key, sample=dict(atoms=got[0], outcomes=sorted({str(v_) for v_ in got[1].values()})))
+        if diffs:
+            chk.violation(r_lf, key, "%s: %s; %s" % (f["q"], "; ".join(diffs[:3]), why), f["file"], f["l"])
+
+    pf = other_fn("ActionParser.cpp", "Action::Parser", "parse")
+    pv = [v["n"] for n in stmt_list(pf["body"]) if n["k"] == "Decl" for v in n["vars"] if (v.get("t") or "").endswith("Parser")]
+    if len(pv) != 1:
+        raise core.AnalysisBroken("Parser::parse: the parser object was not found")
+    P_ = pv[0]
+    T_N, T_E, T_C = "%s.next().type == TokenType::end" % P_, "%s.parse_or().type == TokenType::error" % P_, "%s.current().type == TokenType::end" % P_
+    plain_table(pf, [T_N, T_E, T_C], lambda v: "ASTNode{%s.next().type}" % P_ if v[T_N] else "throw" if (v[T_E] or not v[T_C]) else "%s.parse_or()" % P_,
+                "an empty condition gives the empty tree; otherwise the tree of parse_or is returned, provided it is no error node and every token was consumed", opaque=(P_,))
+    FIND = "std::find_if(this.actions.begin(), this.actions.end(), [&%s=%s](1){ return ($0.name() == %s); })"
+    hf = other_fn("Actions.cpp", "Action::Actions", "has", 1)
+    hn = hf["params"][0]["n"]
+    T_F = (FIND % (hn, hn, hn)) + " == this.actions.end()"
+    plain_table(hf, [T_F], lambda v: not v[T_F], "has(name) holds exactly when an action with that name is stored", boolean=True)
+    gf = other_fn("Actions.cpp", "Action::Actions", "operator[]", 1, "string")
+    gn = gf["params"][0]["n"]
+    T_G = (FIND % (gn, gn, gn)) + " == this.actions.end()"
+    plain_table(gf, [T_G], lambda v: "throw" if v[T_G] else "*" + FIND % (gn, gn, gn), "operator[](name) gives the action of that name")
+
     chk.assumptions += ["documented ACTIONX condition syntax (AND binds tighter than OR; .GT. style aliases) as frozen in rules/C18.py"]
